@@ -11,6 +11,7 @@ package PKGNAME
 import (
 	"bytes"
 	"context"
+	"errors"
 	"io"
 
 	cachepkg "github.com/jdillenkofer/pithos/internal/cache"
@@ -61,7 +62,27 @@ func (c *verifPCCache) Remove(key string) error {
 type verifPCInner struct {
 	present bool
 	data    []byte
+	// the next GetPart stream breaks after failAfter bytes with failErr (-1: intact)
+	failAfter int
+	failErr   error
 }
+
+type verifPCBrokenReader struct {
+	data []byte
+	err  error
+}
+
+func (r *verifPCBrokenReader) Read(p []byte) (int, error) {
+	if len(r.data) == 0 {
+		return 0, r.err
+	}
+	n := copy(p, r.data)
+	r.data = r.data[n:]
+	return n, nil
+}
+func (r *verifPCBrokenReader) Close() error { return nil }
+
+var verifPCErrBackend = errors.New("verif: backend stream broke")
 
 func (s *verifPCInner) Start(ctx context.Context) error { return nil }
 func (s *verifPCInner) Stop(ctx context.Context) error  { return nil }
@@ -77,6 +98,12 @@ func (s *verifPCInner) GetPart(ctx context.Context, tx database.Tx, id partstore
 	if !s.present {
 		return nil, partstore.ErrPartNotFound
 	}
+	if s.failAfter >= 0 && s.failAfter < len(s.data) {
+		r := &verifPCBrokenReader{data: append([]byte(nil), s.data[:s.failAfter]...), err: s.failErr}
+		s.failAfter = -1
+		return r, nil
+	}
+	s.failAfter = -1
 	return io.NopCloser(bytes.NewReader(s.data)), nil
 }
 func (s *verifPCInner) GetPartIds(ctx context.Context, tx database.Tx) ([]partstore.PartId, error) {
@@ -95,8 +122,9 @@ func verifStubMarkHint(ps *cachePartStore, k string)     { verifPCHints[k] = tru
 func verifStubClearHint(ps *cachePartStore, k string)    { delete(verifPCHints, k) }
 
 func VerifC19PartCache() {
-	inner := &verifPCInner{}
-	st, err := New(&verifPCCache{}, inner, Options{MaxPartSizeBytes: 2})
+	inner := &verifPCInner{failAfter: -1}
+	theCache := &verifPCCache{}
+	st, err := New(theCache, inner, Options{MaxPartSizeBytes: 2})
 	if err != nil {
 		panic(err)
 	}
@@ -107,12 +135,29 @@ func VerifC19PartCache() {
 	ctx := context.Background()
 	steps := verifParam("steps", 3)
 	for i := 0; i < steps; i++ {
-		switch verifPick("op", 0, 2) {
+		switch verifPick("op", 0, 3) {
 		case 0: // put (3 bytes exceed the cache threshold of 2)
 			body := verifBytes("body", verifPick("len", 0, 3))
 			verifAssert(st.PutPart(ctx, nil, id, bytes.NewReader(body)) == nil, "PutPart failed")
 		case 1:
 			verifAssert(st.DeletePart(ctx, nil, id) == nil, "DeletePart failed")
+		case 3: // the cache has evicted the entry (any cache may) and the store's stream breaks after 0..1 bytes (short read or backend error): the reader must see an error
+			theCache.Remove(getPartCacheKey(id))
+			inner.failAfter = verifPick("failAfter", 0, 1)
+			inner.failErr = io.ErrUnexpectedEOF
+			if verifPick("failKind", 0, 1) == 1 {
+				inner.failErr = verifPCErrBackend
+			}
+			broke := inner.present && inner.failAfter < len(inner.data)
+			if rc, err := st.GetPart(ctx, nil, id); err == nil {
+				_, rerr := io.ReadAll(rc)
+				rc.Close()
+				if broke && inner.failAfter == -1 { // the broken stream was the one consumed (cache miss)
+					verifAssert(rerr != nil, "a broken backend stream was reported to the reader as complete")
+					verifCover("broken-stream")
+				}
+			}
+			inner.failAfter = -1
 		case 2: // a reader that goes away after one byte
 			if rc, err := st.GetPart(ctx, nil, id); err == nil {
 				one := make([]byte, 1)
